@@ -26,6 +26,10 @@ def cases(rng, tier):
             c.lines += ["sim.prog " + " ".join(prog2), "sim.snap"]
             c.meta["reload"] = True
         yield c
+    for prog, regs in rvgen.long_programs(rng, tier):          # loops larger and smaller than the cache, thousands of fetches
+        for mode in ("single", "five"):
+            ispec = f"{rng.choice(['lru', 'plru'])},{rng.choice([0, 1, 2])},{rng.choice([0, 1, 2])},{rng.choice([1, 2, 4])},{rng.choice([0, 3])}"
+            yield rvgen.long_case(prog, regs, mode, True, ispec=ispec, suite="sim-icache")
     # reload and RUN the second program: (a) a longer straight-line program continued at the pc the first one stopped at,
     # (b) the pc put back to 0 — in both cases nothing of the first program may be fetched or counted
     for i in range(40 if tier == "quick" else 600):
@@ -115,7 +119,7 @@ def oracle(c):
         k = 0
         sys_.read_instruction = spy
         try:
-            while not im.sim.is_done() and k < 2000:
+            while not im.sim.is_done() and k < (30000 if c.meta.get("long") else 2000):
                 before = len(log)
                 im.sim.step()
                 k += 1
